@@ -205,6 +205,70 @@ def make(cfg):
     return Monitor(cfg)
 
 
+def session_case(job) -> list:
+    """A session that stays inside the gateway context for several save intervals while messages keep changing the
+    registry: whenever the periodic save has run, the file loads to the registry as it was at that save."""
+    from aiomysensors.gateway import Config
+
+    from .. import fsshim
+    from ..vloop import VLoop
+
+    version, rounds = job
+    viols = []
+    loop = VLoop()
+    vfs = fsshim.VFS()
+    s = Session(version, Config(persistence_file=pers.PATH))
+    gw = s.gateway
+
+    def settle():
+        for _ in range(20000):
+            if loop.ready_count():
+                loop.step()
+            elif loop.pending_jobs():
+                loop.run_job(loop.pending_jobs()[0])
+            else:
+                return
+
+    def saves_done():
+        return sum(1 for op in vfs.log if op[0] == "close" and op[1] == pers.PATH) + sum(1 for op in vfs.log if op[0] in ("replace", "rename") and op[2] == pers.PATH)
+
+    loop.enter()
+    try:
+        with fsshim.installed(vfs):
+            t = loop.create_task(gw.__aenter__())
+            settle()
+            if not t.done() or t.exception() is not None:
+                return [("C13|session-enter-failed", f"[{version}] entering the context gave {t!r}", {"session": list(job)})]
+            lines = ["1;255;0;0;17;2.0", "1;3;0;0;6;a", "1;3;1;0;2;v1", "2;255;0;0;17;2.1", "2;0;0;0;3;", "2;0;1;0;2;on", "1;3;1;0;2;v2", "1;255;3;0;0;77", "1;3;1;0;0;21.5"]
+            for rnd in range(rounds):
+                for line in lines[rnd * 3 : rnd * 3 + 3]:
+                    s.line(line)  # handled by the application's listener (sequential driver, same loop)
+                before = saves_done()
+                want = registry_view(gw.nodes)
+                if loop.next_timer() is None:
+                    viols.append(("C13|session-no-timer", f"[{version}] inside the context no save is scheduled (round {rnd})", {"session": list(job)}))
+                    break
+                loop.advance()
+                settle()
+                if saves_done() == before:
+                    viols.append(("C13|session-no-periodic-save", f"[{version}] round {rnd}: the save timer fired but no save completed", {"session": list(job)}))
+                    break
+                loop.leave()
+                kind, val, loaded, _ = pers.load_bytes(bytes(vfs.files.get(pers.PATH, b"")))
+                loop.enter()
+                if kind != "ok":
+                    viols.append(("C13|session-file-rejected", f"[{version}] round {rnd}: the periodically saved file is rejected by load: {val!r}", {"session": list(job)}))
+                    break
+                if registry_view(loaded) != want:
+                    viols.append(("C13|session-file-stale", f"[{version}] after save interval #{rnd + 1} of a running session the file loads to nodes {sorted(loaded)} with {sum(len(n.children) for n in loaded.values())} children; the registry at that save had nodes {sorted(want)}: {[k for k in want if registry_view(loaded).get(k) != want[k]]} differ", {"session": list(job)}))
+                    break
+            t2 = loop.create_task(gw.__aexit__(None, None, None))
+            settle()
+    finally:
+        loop.shutdown()
+    return viols
+
+
 def write_fault_case(job) -> list:
     """A save meets an OS-level error (of several classes, at open / write / close, possibly after a short write):
     it may fail with the persistence write error - but if it returns normally, the file is a file written by save
@@ -374,6 +438,7 @@ def run(ctx: core.Ctx) -> core.Report:
     ores = core.pmap(overlap_case, ojobs, ctx.workers)
     fjobs = [(e, op, k, big) for e in ("OSError", "TimeoutError", "BlockingIOError", "InterruptedError", "PermissionError") for op in ("open", "write", "close") for k in ((0, 100, 4096) if op == "write" else (0,)) for big in (False, True)]
     ores += core.pmap(write_fault_case, fjobs, ctx.workers)
+    ores += core.pmap(session_case, [(v, 3) for v in (("1.4", "2.2") if ctx.quick else R.VERSIONS)], ctx.workers, chunksize=1)
     res["violations"] += [core.Violation(k, w, rep) for r in ores for k, w, rep in r]
     g, _ = grid(ctx.quick)
     chunks = [g[i : i + 60] for i in range(0, len(g), 60)]
@@ -385,7 +450,7 @@ def run(ctx: core.Ctx) -> core.Report:
         "traces_validated_against_impl": res["transitions"] + len(g),
         "exhaustive": False,
         "constructed_registries": len(g),
-        "rule": "every registry reachable in <= depth received messages over an alphabet with boundary payloads is saved by the real Persistence.save (real aiofiles, in-memory fs) and loaded into an empty registry by the real load; plus a full product grid of directly constructed nodes; plus the legacy-layout translation of every saved file; plus histories in which the same object loads other files by path (missing / invalid / valid) between messages and saves; plus a second save call overlapping a running one after 0-4 of its file operations while the registry grows; plus saves that meet one of five OSError classes at open / write (also after a short write of 100 / 4096 bytes) / close, small and 30 KB registries: normal return implies a loadable, equal file",
+        "rule": "every registry reachable in <= depth received messages over an alphabet with boundary payloads is saved by the real Persistence.save (real aiofiles, in-memory fs) and loaded into an empty registry by the real load; plus a full product grid of directly constructed nodes; plus the legacy-layout translation of every saved file; plus histories in which the same object loads other files by path (missing / invalid / valid) between messages and saves; plus a second save call overlapping a running one after 0-4 of its file operations while the registry grows; plus saves that meet one of five OSError classes at open / write (also after a short write of 100 / 4096 bytes) / close, small and 30 KB registries: normal return implies a loadable, equal file; plus sessions that stay inside the gateway context for three save intervals while messages change the registry (the file is loaded after each periodic save)",
         "bounds": {"depth": depth, "per_cfg": res["per_cfg"]},
         "samples": ctx.pick(res["samples"], 2) + [{"grid": list(g[ctx.seed % len(g)])}],
     }
@@ -393,6 +458,9 @@ def run(ctx: core.Ctx) -> core.Report:
 
 
 def replay(data: dict) -> dict:
+    if "session" in data:
+        r = session_case(tuple(data["session"]))
+        return {"violated": bool(r), "violations": [{"key": k, "what": w} for k, w, _ in r]}
     if "write_fault" in data:
         r = write_fault_case(tuple(data["write_fault"]))
         return {"violated": bool(r), "violations": [{"key": k, "what": w} for k, w, _ in r]}
